@@ -257,4 +257,18 @@ func (s *ResettableKeystore) altPutChecked(ctx context.Context, keys []mh.Multih
   ghost at call(Put): $puts = $puts + ite($ret0 == nil, 1, 0)
   ghost at call(Commit): $committed = ($ret0 == nil)
   ghost at before call(Add): assert($committed && $arg0 == $puts)
+
+# ---- one request/answer exchange with the worker (C14, C20) --------------------
+# The answer channel has room for the answer (capacity 1): the worker never
+# blocks on it, also when the caller has given up; the request carries exactly
+# the caller's arguments; the caller's result is the worker's answer unchanged.
+func (s *keystore) executeOperation(op opType, ctx context.Context, keys []mh.Multihash, prefix bitstr.Key, limit int) ([]mh.Multihash, int, bool, error)
+  props C14 C20
+  ghostvar $resp operationResponse = any
+  ghostvar $got bool = false
+  modifies nothing
+  recv_delivers response
+  ensures [answer-unchanged] imp($got, result0 == $resp.multihashes && result1 == $resp.size && result2 == $resp.found && result3 == $resp.err)
+  ghost at send(s.requests): assert($msg.op == op && $msg.ctx == ctx && $msg.keys == keys && $msg.prefix == prefix && $msg.limit == limit && $msg.response == response && cap(response) == 1)
+  ghost at recv(response): $resp = $msg; $got = true
 @*/
